@@ -234,7 +234,7 @@ EVALS = {
     "flow": ("flow_case", [
         "mismatches (flow_model_ok src_tables) cases",
         "violations (fun c => spec_unchanged (f_pre c) (f_files c)) cases",
-        "violations (fun c => match f_err c with Some _ => true | None => spec_attributed (f_rep c) (f_files c) end) cases",
+        "violations (fun c => match f_err c with Some _ => true | None => spec_attributed 0 (f_rep c) (f_files c) end) cases",
         "violations (fun c => match f_err c with Some _ => true | None => spec_complete (f_req c) "
         "(match f_mode c with MExposure => 1 | _ => f_nruns c end) (f_rep c) end) cases",
         "violations (fun c => match f_err c with Some _ => true | None => spec_named (f_mode c) (f_rep c) end) cases",
